@@ -918,12 +918,10 @@ fn plant_failing(stmts: &mut Vec<Stmt>, rng: &mut Rng, random: bool, left: &mut 
                     }
                 }
                 _ => {
-                    let num = if random && rng.chance(1, 2) {
-                        Expr::Random(Box::new(Expr::Num(9)))
-                    } else {
-                        Expr::Num(7)
-                    };
-                    Some(Stmt::Let("zz".into(), zero_div(num)))
+                    // (never a draw inside the failing expression itself: whether the dividend
+                    // of a division by zero is evaluated at all is left open, §4)
+                    let _ = random;
+                    Some(Stmt::Let("zz".into(), zero_div(Expr::Num(7))))
                 }
             };
             if let Some(st) = planted {
